@@ -11,7 +11,8 @@ COQ_IMPORTS = ['Base.Str', 'Base.Value', 'Proc.RowOps']
 RULE = ('cases = generated tables (0-12 rows, 2-5 columns, values from a small pool so duplicates, nulls and '
         'cross-type equal keys (True/1/Decimal(1.0)) occur) x step configuration; non-trivial = the step changes '
         'the row list (drops/duplicates/restructures at least one row) or raises; distinct = distinct case digest'
-        '; round 7: unpivot over two matched resources with different columns, and every case also read after all resources were taken; round 4: several conditions on one field with values that occur in it; unpivot patterns with a top-level alternation next to prefix-named fields')
+        '; round 7: unpivot over two matched resources with different columns, and every case also read after all resources were taken; round 4: several conditions on one field with values that occur in it; unpivot patterns with a top-level alternation next to prefix-named fields'
+        '; round 9: primary keys given as tuples; a field property that happens to be called keys')
 TRUSTED = ['Coq 8.16.1 kernel + vm_compute (case evaluation)', 'harness/p17.py value printer and oracle',
            'field-name regex matching and re.sub back-references are computed by Python re and handed to the model as tables',
            'tableschema cast of type any/integer/string on typed values is the identity (exercised, not proved)']
